@@ -69,6 +69,12 @@ func NewRegistry(o *Options) *minify.M {
 	m.AddFunc(MTStream, streamStub)
 	m.AddFunc(MTFail, failStub)
 	m.AddFunc(MTEarly, earlyStub)
+	// external commands (this test binary as a helper, see HelperMain): nothing is spawned
+	// until one of these types is used
+	m.AddCmd(MTCmd, helperCmdArgs(900))
+	m.AddCmd(MTCmdIn, helperCmdArgs(901, "-in", "$in.txt"))
+	m.AddCmd(MTCmdOut, helperCmdArgs(902, "-out", "$out.txt"))
+	m.AddCmd(MTCmdFile, helperCmdArgs(903, "-in", "$in.txt", "-out", "$out.txt"))
 	return m
 }
 
@@ -80,6 +86,11 @@ const (
 	MTStream = "text/x-stream"
 	MTFail   = "text/x-fail"
 	MTEarly  = "text/x-early"
+	// served by external commands: stdin→stdout, $in→stdout, stdin→$out, $in→$out
+	MTCmd     = "text/x-cmd"
+	MTCmdIn   = "text/x-cmd-in"
+	MTCmdOut  = "text/x-cmd-out"
+	MTCmdFile = "text/x-cmd-in-out"
 )
 
 var ErrStubFailed = errors.New("stub minifier: failed after half of the output")
